@@ -3,7 +3,7 @@
    single-edge exactness of the pair-based system).  Everything is over Q and closed under
    the global context.  The small systems the reductions map to (homogeneous mean-field /
    pairwise) are the GENERATED definitions of Gen/Rhs.v. *)
-From EoNV Require Import Prelude Vec VecP Graph Rhs Rhs2D.
+From EoNV Require Import Prelude Vec VecP Graph Aux Rhs Rhs7P Rhs2D.
 From Coq Require Import Qpower Lqa Setoid Morphisms.
 
 (* ====================================================================== *)
@@ -1162,4 +1162,46 @@ Proof.
   - intros k Hk. change (nN tri_nodes) with 3%nat in Hk. destruct k as [|[|[|k]]]; try lia; reflexivity.
   - intros i j Hi Hj. change (nN tri_nodes) with 3%nat in Hi, Hj.
     destruct i as [|[|[|i]]]; try lia; destruct j as [|[|[|j]]]; try lia; intros He; try discriminate He; split; reflexivity.
+Qed.
+
+
+(* ====================================================================== *)
+(* C07 (c'): heterogeneous pairwise on the single class k = compact pairwise on the classes 0..k with only class k
+   occupied (through the homogeneous pairwise model: Rhs7P.lump_*_compact_pairwise_regular) *)
+(* ====================================================================== *)
+Lemma unitv_veq k a b : a == b -> veq (unitv k a) (unitv k b).
+Proof. intros H. unfold unitv. apply veq_app; [reflexivity|]. constructor; [exact H|constructor]. Qed.
+
+Lemma hp_to_compact_SIS kk s SI SS N t tau g :
+  ~ Qnat kk == 0 -> ~ s == 0 ->
+  let hp := dSIS_heterogeneous_pairwise [s; SS; SI] [N] [N * Qnat kk] tau g [Qnat kk] t in
+  veq (dSIS_compact_pairwise (unitv kk s ++ [SI; SS]) t (unitv kk N) (N * Qnat kk) tau g)
+      (unitv kk (vnth 0 hp) ++ [vnth 2 hp; vnth 1 hp]).
+Proof.
+  intros Hk Hs hp.
+  assert (H1 := lump_SIS_compact_pairwise_regular t tau g kk s SI SS N Hk Hs). cbv zeta in H1.
+  assert (H2 := hpSIS_single_class s SS SI N (Qnat kk) tau g t Hk Hs). cbv zeta in H2. fold hp in H2.
+  set (small := dSIS_homogeneous_pairwise [s; SI; SS] t N (Qnat kk) tau g) in *.
+  assert (E0 : vnth 0 hp == vnth 0 small) by (apply (veq_nth_all _ _ H2 0%nat)).
+  assert (E1 : vnth 1 hp == vnth 2 small) by (apply (veq_nth_all _ _ H2 1%nat)).
+  assert (E2 : vnth 2 hp == vnth 1 small) by (apply (veq_nth_all _ _ H2 2%nat)).
+  etransitivity; [exact H1|]. apply veq_app; [apply unitv_veq; symmetry; exact E0|].
+  repeat constructor; symmetry; assumption.
+Qed.
+Lemma hp_to_compact_SIR kk s SS SI R N t tau g :
+  ~ Qnat kk == 0 -> ~ s == 0 ->
+  let hp := dSIR_heterogeneous_pairwise [s; N - s - R; SS; SI] tau g [Qnat kk] t in
+  veq (dSIR_compact_pairwise (unitv kk s ++ [SS; SI; R]) t N tau g)
+      (unitv kk (vnth 0 hp) ++ [vnth 2 hp; vnth 3 hp; - (vnth 0 hp + vnth 1 hp)]).
+Proof.
+  intros Hk Hs hp.
+  destruct (lump_SIR_compact_pairwise_regular t tau g kk s SS SI R N Hk Hs) as [H1 H1']. cbv zeta in H1, H1'.
+  assert (H2 := hpSIR_single_class s (N - s - R) SS SI (Qnat kk) tau g t Hk Hs). cbv zeta in H2. fold hp in H2.
+  set (small := dSIR_homogeneous_pairwise [s; N - s - R; SI; SS] t (Qnat kk) tau g) in *.
+  assert (E0 : vnth 0 hp == vnth 0 small) by (apply (veq_nth_all _ _ H2 0%nat)).
+  assert (E1 : vnth 1 hp == vnth 1 small) by (apply (veq_nth_all _ _ H2 1%nat)).
+  assert (E2 : vnth 2 hp == vnth 3 small) by (apply (veq_nth_all _ _ H2 2%nat)).
+  assert (E3 : vnth 3 hp == vnth 2 small) by (apply (veq_nth_all _ _ H2 3%nat)).
+  etransitivity; [exact H1|]. apply veq_app; [apply unitv_veq; symmetry; exact E0|].
+  repeat constructor; try (symmetry; assumption). rewrite E0, E1, H1'. ring.
 Qed.
